@@ -107,7 +107,7 @@ def beObs (kv : List (String × String)) : String × Nat × Bool :=
         time := [], threadId := [], threadName := [], processId := [], logger := getS kv "logger",
         levelDesc := getS kv "lvl", levelShort := getS kv "lvls", src := src, caller := caller, tags := none, named := named }
       let pieces := dispatch ml (named.getD []).isEmpty message
-      let rs := pieces.map fun piece => formatPattern (getS kv "p") (valuation st mv piece)
+      let rs := statements (getS kv "p") st mv ml message
       let lines := rs.filterMap fun r => match r with | .line s => some s | _ => none
       if rs.any (fun r => match r with | .unsupported => true | _ => false) then ("unsupported", pieces.length, kind == "rt")
       else if lines.length ≠ rs.length then ("lost", pieces.length, kind == "rt")
